@@ -826,9 +826,9 @@ class Interp:
             return clone(self.place(o[1], frame).v)
         if k == 'move':
             return self.place(o[1], frame).v
-        return self.const(o[1])
+        return self.const(o[1], frame)
 
-    def const(self, c):
+    def const(self, c, frame=None):
         k = c[0]
         if k == 'int':
             return SInt(c[1], c[2])
@@ -861,7 +861,11 @@ class Interp:
         if k == 'fnitem':
             return FnItem(c[1])
         if k == 'promoted':
-            b = self.prog.by_name.get('%s::promoted[%d]' % (c[1], c[2]))
+            b = None
+            if frame is not None:
+                b = self.prog.by_name.get('%s::promoted[%d]' % (frame['__body__'].name, c[2]))
+            if b is None:
+                b = self.prog.by_name.get('%s::promoted[%d]' % (c[1], c[2]))
             if b is None:
                 # promoted names use the trimmed path of the enclosing fn
                 last = c[1].split('::')[-1]
@@ -1028,6 +1032,22 @@ class Interp:
         f = ADT_MODELS.get('::'.join(segs[-2:])) or ADT_MODELS.get(segs[-1])
         if f:
             return ('model', f, None)
+        if len(segs) == 1:
+            # a bare variant name (rustc trims the path when the name is unique)
+            hits = []
+            for lst in src.adts.values():
+                for e in lst:
+                    if e.kind == 'enum':
+                        for v in e.variants:
+                            if v[0] == segs[0]:
+                                hits.append((e, v))
+            if len(hits) > 1 and crate:
+                own = [h for h in hits if h[0].mod and h[0].mod[0] == crate]
+                hits = own or hits
+            if len(hits) == 1:
+                return ('variant', hits[0][0], hits[0][1])
+            if len(hits) > 1 and len(set((h[0].name, h[1][3]) for h in hits)) == 1:
+                return ('variant', hits[0][0], hits[0][1])
         return ('none', None, None)
 
     def cast(self, v, ty, kind):
